@@ -25,6 +25,17 @@ Theorem C02_accept : forall mx s i, accepts s i = true ->
 Proof. exact MiscC02.accept_active. Qed.
 Print Assumptions C02_accept.
 
+(* the active set only grows: no request, accepted or not, deactivates an index, and whatever the history is continued
+   with, everything active stays active (no hypothesis on the continuation: inadmissible requests included) *)
+Theorem C02_active_monotone_step : forall mx s i j, In j (active s) -> In j (active (activate mx s i)).
+Proof. exact MiscC02.active_monotone_step. Qed.
+Print Assumptions C02_active_monotone_step.
+
+Theorem C02_active_monotone : forall mx reqs more j,
+  In j (active (run mx reqs)) -> In j (active (run mx (reqs ++ more))).
+Proof. exact MiscC02.active_monotone. Qed.
+Print Assumptions C02_active_monotone.
+
 (* activation stops being possible precisely when the whole box is active *)
 Theorem C02_exhaustion : forall mx s, Inv mx s -> active s <> [] ->
   (cand s = [] <-> forall i, le_idx i mx -> In i (active s)).
